@@ -154,6 +154,9 @@ func c18FailedReload(c *vlib.Ctx) {
 				after := c18Fingerprint(a)
 				c.Count("evaluations", 1)
 				c.Count("failed_reload_trials", 1)
+				if c.Counter("failed_reload_trials") <= 2 {
+					c.Sample(map[string]any{"part": "failed_reload", "failure": f.name, "old_config": old, "candidate": next, "reload_reported_ok": ok, "fingerprint_before": before, "fingerprint_after": after})
+				}
 				c.Distinct("nontrivial", fmt.Sprintf("failed_reload:%s:%d->%d", f.name, oi, ni))
 				if ok {
 					c.Violation(vlib.Signature{"class": "invalid_reload_applied", "failure": f.name}, fmt.Sprintf("reload with injected failure %q reported success (old config %d, candidate %d)", f.name, oi, ni), map[string]any{"old": old, "candidate": next})
@@ -266,6 +269,9 @@ func c18Mixture(c *vlib.Ctx) {
 						kind = "new"
 					}
 					c.Count("answers_"+kind, 1)
+					if c.Counter("answers_"+kind) <= 1 {
+						c.Sample(map[string]any{"part": "mixture", "pair": pr.name, "window": mode, "probe": "POST " + pr.target, "answer": ans, "classified": kind, "old_answer": pr.oldA, "new_answer": pr.newA})
+					}
 					c.Distinct("nontrivial", fmt.Sprintf("mixture:%s:%s:%s", pr.name, mode, kind))
 					if kind == "neither" {
 						c.Violation(vlib.Signature{"class": "mixed_configuration", "site": site},
